@@ -2281,6 +2281,9 @@ class Interp:
     def truth(self, v):
         if v is TOP or isinstance(v, M.Unknown):
             return None
+        if isinstance(v, EnumVal):
+            # a member of an IntEnum is the number it stands for (0 is false); members of a plain Enum are always true
+            return bool(v.attrs['value']) if v.int_like else True
         if isinstance(v, Sym):
             return v.truthy
         if isinstance(v, (Inst, M.ClassInfo, M.FunctionInfo, M.ModuleInfo, M.External)):
